@@ -26,6 +26,9 @@ MAY_PANIC = {
     "reserve_exact": ("alloc::vec::Vec",), "resize": ("alloc::vec::Vec",), "from_elem": ("alloc::vec",),
     "repeat": ("alloc::slice", "alloc::str"),
 }
+INT_TYPES = {"u8", "u16", "u32", "u64", "u128", "usize", "i8", "i16", "i32", "i64", "i128", "isize"}
+OP_TRAIT_KINDS = {"div": "DivisionByZero", "rem": "RemainderByZero", "add": "Overflow:Add", "sub": "Overflow:Sub", "mul": "Overflow:Mul",
+                  "div_assign": "DivisionByZero", "rem_assign": "RemainderByZero"}
 IGNORED_ASSERTS = ("MisalignedPointerDereference", "NullPointerDereference", "InvalidEnumConstruction")
 ALLOC_LIMIT = 1 << 32
 
@@ -108,6 +111,16 @@ def sites_of(f):
                 out.append({"kind": "diverge:" + (mk or name), "bb": bi, "at": t["sp"]["at"], "term": t, "ops": [],
                             "mac": mk, "detail": d})
                 continue
+            if d.startswith("core::ops::arith::") and name in OP_TRAIT_KINDS and len(t["a"]) == 2:
+                # operator traits on integers taken by reference (`&usize / usize`): the arithmetic and its
+                # overflow / zero-divisor panic happen inside core, not as a MIR operation
+                selfty = (c.get("args") or [""])[0].lstrip("&").replace("mut ", "").strip()
+                if selfty in INT_TYPES:
+                    kind = OP_TRAIT_KINDS[name]
+                    ops = [t["a"][1]] if kind in ("DivisionByZero", "RemainderByZero") else list(t["a"])
+                    out.append({"kind": kind, "bb": bi, "at": t["sp"]["at"], "term": t, "ops": ops, "mac": None,
+                                "detail": c.get("rfull") or c["full"], "opcall": True})
+                    continue
             if c["krate"] in ("core", "alloc", "std") and name in MAY_PANIC:
                 full = (c.get("rfull") or "") + " " + c["full"] + " " + d
                 if any(p in full for p in MAY_PANIC[name]):
@@ -329,8 +342,19 @@ def discharge(an, f, s, reach_feasible=None):
     pos = (s["bb"], f.INF - 1)
     t = s["term"]
 
-    def ev(op):
-        return an.eval_op(f, op, pos)
+    def ev(op, _d=0):
+        v = an.eval_op(f, op, pos)
+        if v is None and op_local(op) is not None and _d < 4:
+            # a reference to an integer (operator traits taken by reference): the referent
+            ty = f.local_ty(op_local(op)).strip()
+            if ty.startswith("&") and len(op_place(op) or [0, 0]) == 1:
+                for dd in f.defs(op_local(op)):
+                    if dd["kind"] == "assign" and dd["rv"][0] == "ref":
+                        return an.eval_place(f, dd["rv"][2], (dd["bb"], dd.get("si", 0)), None, 0, None)
+                    if dd["kind"] == "assign" and dd["rv"][0] == "use":
+                        return ev(dd["rv"][1], _d + 1)
+                return intervals.type_range(ty.lstrip("&").replace("mut ", "").strip())
+        return v
 
     if not feasible(an, f, s["bb"]):
         return True, "site is unreachable: a dominating comparison is decided by the value ranges"
@@ -389,7 +413,9 @@ def discharge(an, f, s, reach_feasible=None):
         # the assert message carries the dividend; the divisor is the operand compared with 0 in the
         # assert's condition `!(divisor == 0)`
         d = None
-        cl = op_local(t["c"])
+        cl = op_local(t["c"]) if "c" in t else None
+        if s.get("opcall"):
+            d = s["ops"][0]
         if cl is not None:
             for dd in f.defs(cl):
                 if dd["kind"] == "assign" and dd["rv"][0] == "bin" and dd["rv"][1] == "Eq":
@@ -697,7 +723,7 @@ def inventory(prog, entry_keys, stop, table, scope_crates=None):
     # full one (with local variable names; descriptive, used as the primary key) and a name-free one
     # (fields, callee names, constants): a table entry whose full key no longer exists is matched
     # through the name-free key, so renaming locals keeps reviewed reasons attached.
-    counters, acounters = {}, {}
+    counters, acounters, kcounters = {}, {}, {}
     staged = []
     for k in sorted(keys, key=lambda kk: (root_key(kk), kk)):
         f = prog.funcs[k]
@@ -710,21 +736,35 @@ def inventory(prog, entry_keys, stop, table, scope_crates=None):
             ao = acounters.get(ak, 0)
             acounters[ak] = ao + 1
             s["akey"] = "%s#%s#%s#%d" % (root_key(k), s["kind"], s["asig"], ao)
+            kk = (root_key(k), s["kind"])
+            ko = kcounters.get(kk, 0)
+            kcounters[kk] = ko + 1
+            s["kkey"] = "%s#%s#@%d" % (root_key(k), s["kind"], ko)
             staged.append((k, f, s, "%s#%s" % (root_key(k), s["id"])))
     present = {key for _, _, _, key in staged}
-    alt_index = {}
+    alt_index, kind_index = {}, {}
     for e in table.values():
         if e.get("alt"):
             alt_index.setdefault(e["alt"], e)
+        if e.get("kalt"):
+            kind_index.setdefault(e["kalt"], e)
     table = dict(table)
     for k, f, s, key in staged:
+        s["nkind"] = kcounters[(root_key(k), s["kind"])]
         if True:
             if key not in table:
                 cand = alt_index.get(s["akey"])
+                if cand is None or cand["key"] in present:
+                    # last resort: same root function, same kind, same position among the sites of
+                    # that kind, and the number of such sites is unchanged (the operand expression was
+                    # rewritten, e.g. `&usize / usize` through the operator trait vs a plain division)
+                    cand = kind_index.get(s["kkey"])
+                    if cand is not None and cand.get("nkind") != s["nkind"]:
+                        cand = None
                 if cand is not None and cand["key"] not in present:
                     table[key] = cand
             ok, how = discharge(an, f, s)
-            rec = {"func": k, "site": s, "key": key, "akey": s["akey"], "at": s["at"], "path": ir.Program.path_to(reach, k)}
+            rec = {"func": k, "site": s, "key": key, "akey": s["akey"], "kkey": s["kkey"], "nkind": s["nkind"], "at": s["at"], "path": ir.Program.path_to(reach, k)}
             if ok:
                 rec.update(verdict="auto", how=how)
             elif key in table and ("requires" not in table[key] or check_requires(prog, f, s, table[key]["requires"])[0]):
